@@ -2,29 +2,34 @@ import PsyVerif.Lemmas.RegionDataSem
 /-! # C13 — OpenACC data regions move all data the region needs
 
 Model (`Model/RegionData.lean`): `clauses` = `create_data_movement_deep_copy_refs` +
-`_update_data_movement_clauses` on the access list `sacc` (incl. DO WHILE: condition first);
-`clausesP` adds the parents of structure members (deep copy), `clausesG` the `has_read_write`
-rule for call arguments; `accDataTrans(P)` = `ACCDataTrans` validate/apply (refusals);
+`_update_data_movement_clauses` on the access list `sacc` (incl. DO WHILE: condition first, and
+calls as `RStmt.code`: READWRITE of the by-reference arguments): `has_read_write` → `copy`
+(tested first), read-only → `copyin`, never read or textually written first → `copyout`, else
+`copy`; `clausesP` adds the parents of structure members (deep copy); `accDataTrans(P)` =
+`ACCDataTrans` validate/apply (refusals: empty list, CodeBlock/Return, `enter data`);
 `execACC` = host store + device store whose fresh contents `γ` are ARBITRARY (poison = the
 theorems quantify over `γ`), whole region on the device, copyin/copy at entry, copyout/copy at
-exit element by element; scalars in no clause are shared (outside the claim).
+exit element by element; scalars in no clause are shared (outside the claim).  Theorems about
+regions with calls carry the explicit hypothesis `covered` (the callee touches only its arguments).
 
 Theorems (all for every `fuel`, `σ`, `γ`)
-* `C13_statement` is FALSE of the pinned code: `partial_copyout_counterexample`
+* `C13_statement` is FALSE of the code at HEAD: `partial_copyout_counterexample`
   (`a(1)=5; b(2)=a(2)` gets `copyout(a,b)`), `write_only_copyout_counterexample` (`a(1)=5`).
-* `C13_clauses_arrays`, `C13_clauses_disjoint`, `C13_copyout_char`, `C13_refusals` — structure
-  of the generated clauses and of the refusals.
+* `C13_clauses_arrays`, `C13_clauses_disjoint`, `C13_copyout_char`, `C13_readwrite_copy`,
+  `C13_refusals` — structure of the generated clauses and of the refusals.
 * `C13_partial` (+ `C13_host_arrays_partial`, `C13_no_poison_partial`, `C13_trans_partial`) —
-  whole-store equality with host execution when no touched array lands in `copyout`.
+  whole-store equality with host execution when no touched array lands in `copyout`;
+  `writeThenCall_exact`: `a(1)=5; call bump(a, ..)` is exact because READWRITE wins.
 * `C13_deviation_covered_partial` — SYNTACTIC side condition `CopyoutCovered` (`chk`): if
   `copyout` arrays are read at most at elements covered by an earlier unconditional store to
-  the same element ("same index in the same loop"), no undefined value is ever consumed and
-  the only damage is junk copied back over elements the region left untouched;
-  `C13_deviation_partial` (never read) is the special case (`copyoutCovered_of_notRead`);
-  `C13_covered_partial` — hence no damage if every declared element is changed.
+  the same element, no undefined value is ever consumed and the only damage is junk copied back
+  over elements the region left untouched; `C13_deviation_partial` (never read) is the special
+  case (`copyoutCovered_of_notRead`); `C13_covered_partial` — no damage if every declared
+  element is changed.
 * `C13_parents_irrelevant` — adding the structure parents to the clauses changes nothing on
   the other variables, so the above carries over to `clausesP`.
-Outside the theorems (differential run only): call arguments (`clausesG`), CodeBlocks. -/
+Outside the model: `present`/`update` directives, kernels/parallel regions, CodeBlocks
+(refused by `ACCDataTrans`). -/
 namespace C13
 open MiniF RegionData
 
